@@ -6,6 +6,7 @@ def build(u):
     c = Src.get("cln_plugin/codec.rs")
     u.raw("#![feature(sized_hierarchy)]\nuse vstd::prelude::*;\nverus! {\nglobal size_of usize == 8;\n")
     u.env("prelude.rs")
+    u.env("std_extra.rs")
     u.canary_decls()
     u.env("anyhow.rs")
     u.raw('''#[verifier::external_trait_specification]
